@@ -17,7 +17,7 @@ import (
 )
 
 // Timeout per guarded call.
-var Timeout = 5 * time.Second
+var Timeout = 3 * time.Second
 
 // Guard runs f; returns 0 when it returned, 2 + site when it panicked (recovered), 3 on timeout.
 func Guard(f func()) (int, string) {
